@@ -34,7 +34,7 @@ ASSUMPTIONS = [
     'bounds="error" must raise, bounds="warn" must warn, clean="mask" with '
     'left/right=nan must mask; bounds="ignore" with clean="none" may clamp',
 ]
-HOOKS = ['val2idx.contract', 'time2idx.return']
+HOOKS = ['val2idx.twin', 'val2idx.contract', 'time2idx.return']
 TECHNIQUE = ('runtime contract (icontract ensure on the real method) with a '
              'brute-force cell-search oracle over generated query batches')
 MIN_DISTINCT = {'quick': 800, 'thorough': 10000}
@@ -67,7 +67,8 @@ def gen(rng, idx, tier, seed):
                 'calendar': str(rng.choice(['standard', 'standard', 'none',
                                             'noleap', '365_day'])),
                 'method': str(rng.choice(['nearest', 'exact', 'bounds']))}
-    n = int(rng.integers(2, 13))
+    n = int(rng.integers(2, 13)) if rng.random() < 0.8 else \
+        int(rng.integers(13, 41))    # long axes take other numpy code paths
     return {
         'mode': 'val', 'n': n,
         'dir': str(rng.choice(['asc', 'desc'])),
@@ -82,6 +83,7 @@ def gen(rng, idx, tier, seed):
         # storage type of the coordinate and its bounds
         'cdtype': str(rng.choice(['d', 'd', 'f', 'store-int'])),
         'disk': bool(idx % 7 == 3),
+        'twin': bool(rng.random() < 0.4),
     }
 
 
@@ -154,6 +156,9 @@ def queries(spec, c, e):
     q += list((c[:-1] + c[1:]) / 2.)
     q += list(rng.uniform(lo, hi, 6))
     q += [lo - 0.3 * span, hi + 0.3 * span, lo - 5 * span - 1, hi + 7 * span]
+    # the same value asked for more than once (also values that are not on
+    # the coordinate and values outside the domain)
+    q += q[-4:] + q[-8:-6] + list(rng.choice(np.array(q), 4))
     q = np.array(q, dtype='f8')
     return q[rng.permutation(q.size)]
 
@@ -346,6 +351,31 @@ def run_val_in(spec, res, d, h):
     if st.get('done') or raised is not None:
         res.hook('val2idx.contract')
     _state['cur'] = None
+    twin = None
+    if spec.get('twin') and raised is None and out is not None and \
+            not spec.get('disk'):
+        # a second coordinate in the same file: the same geometry scaled by
+        # two (exact in binary), with bounds under the default name and no
+        # bounds attribute.  Looked up AFTER x it must give the same cells.
+        try:
+            ct = cdtype_of(spec)
+            n_ = spec['n']
+            f.createDimension('y', n_)
+            f.createVariable('y', ct, ('y',))[:] = c * 2
+            if spec['bounds'] == 'edges1d':
+                f.createDimension('y_edge', n_ + 1)
+                f.createVariable('y_bounds', ct, ('y_edge',))[:] = e * 2
+            elif spec['bounds'] != 'none':
+                if 'nv' not in f.dimensions:
+                    f.createDimension('nv', 2)
+                yb = f.createVariable('y_bounds', ct, ('y', 'nv'))
+                yb[:, 0] = e[:-1] * 2
+                yb[:, 1] = e[1:] * 2
+            harness.WARN_LOG.clear()
+            twin = f.val2idx('y', q * 2, **kw)
+            res.hook('val2idx.twin')
+        except Exception as ex:
+            twin = ex
     warned = any('out of bounds' in m for _, m in harness.WARN_LOG)
     lo, hi = (e.min(), e.max())
     nontriv = bool(((q < lo) | (q > hi)).any() and
@@ -357,6 +387,24 @@ def run_val_in(spec, res, d, h):
               'stored:' + cdtype_of(spec)]
     res.ev(digest(spec), nontriv, facets)
     problems = judge(spec, c, e, q, out, warned, raised)
+    if twin is not None and not problems:
+        if isinstance(twin, Exception):
+            problems.append('the same lookup on a second coordinate of the '
+                            'file (same geometry x 2) raised %r' % (twin,))
+        else:
+            a, b = np.ma.array(out), np.ma.array(twin)
+            if a.shape != b.shape or not np.array_equal(
+                    np.ma.getmaskarray(a), np.ma.getmaskarray(b)) or \
+                    not np.array_equal(a.filled(-9), b.filled(-9)):
+                j = int(np.argmax(np.ma.getmaskarray(a) != np.ma.getmaskarray(
+                    b))) if a.shape == b.shape else 0
+                problems.append(
+                    'a second coordinate of the same file with the same '
+                    'geometry (scaled by 2, bounds under the default name) '
+                    'looked up after x gives other cells: e.g. query %r -> '
+                    '%s, x gave %s' % (
+                        q[j] * 2, b.tolist()[j] if b.shape else b,
+                        a.tolist()[j] if a.shape else a))
     if problems:
         res.viol('wrong-index:%s:%s' % (spec['method'], spec['dir']),
                  'coordinate %s (%s, bounds=%s), val2idx(%s): %s'
